@@ -198,11 +198,96 @@ impl Source {
 
 // ------------------------------------------------------------------ interpreter
 
+/// What a call let the caller observe (projection into the vocabulary of Buffer.tla).
+#[derive(Default)]
+struct Out {
+    r: &'static str,
+    rem: Option<usize>,
+    data: Option<Vec<u8>>,
+    olen: Option<usize>,
+    own: Option<Vec<u8>>,
+    mem: Option<Vec<u8>>,
+    msg: Option<String>,
+    loc: Option<String>,
+}
+impl Out {
+    fn ok() -> Out {
+        Out { r: "ok", ..Default::default() }
+    }
+    fn rem(mut self, n: usize) -> Out {
+        self.rem = Some(n);
+        self
+    }
+    fn data(mut self, d: Vec<u8>) -> Out {
+        self.data = Some(d);
+        self
+    }
+    fn to_json(&self) -> Value {
+        let mut m = serde_json::Map::new();
+        m.insert("r".to_string(), json!(self.r));
+        if let Some(x) = self.rem { m.insert("rem".to_string(), json!(x)); }
+        if let Some(x) = &self.data { m.insert("data".to_string(), json!(x)); }
+        if let Some(x) = self.olen { m.insert("olen".to_string(), json!(x)); }
+        if let Some(x) = &self.own { m.insert("own".to_string(), json!(x)); }
+        if let Some(x) = &self.mem { m.insert("mem".to_string(), json!(x)); }
+        if let Some(x) = &self.msg { m.insert("msg".to_string(), json!(x)); }
+        if let Some(x) = &self.loc { m.insert("loc".to_string(), json!(x)); }
+        Value::Object(m)
+    }
+}
+
 struct Cx {
     src: Source,
+    /// lite mode (used under Miri): no JSON is built; observations are folded into `sum`
+    lite: bool,
+    sum: u64,
     events: Vec<(Value, Value)>,
     current: Option<Value>, // act whose library call is in progress (for panics)
     unwinding: Option<usize>, // index of the event of an `unwind` op in progress
+}
+
+impl Cx {
+    fn new(src: Source, lite: bool) -> Cx {
+        Cx { src, lite, sum: 0xcbf29ce484222325, events: Vec::new(), current: None, unwinding: None }
+    }
+    fn fold_u(&mut self, x: u64) {
+        self.sum = (self.sum ^ x).wrapping_mul(0x100000001b3);
+    }
+    fn fold_bytes(&mut self, b: &[u8]) {
+        self.fold_u(b.len() as u64);
+        for x in b {
+            self.fold_u(*x as u64);
+        }
+    }
+    fn act(&self, op: &Op) -> Value {
+        if self.lite { Value::Null } else { act_of(op) }
+    }
+    fn push(&mut self, act: Value, o: Out) -> usize {
+        if self.lite {
+            self.fold_u(o.r.len() as u64);
+            if let Some(x) = o.rem { self.fold_u(x as u64); }
+            if let Some(x) = &o.data { self.fold_bytes(x); }
+            if let Some(x) = o.olen { self.fold_u(x as u64); }
+            if let Some(x) = &o.own { self.fold_bytes(x); }
+            if let Some(x) = &o.mem { self.fold_bytes(x); }
+            self.events.push((Value::Null, Value::Null));
+        } else {
+            self.events.push((act, o.to_json()));
+        }
+        self.events.len() - 1
+    }
+    fn patch_rem(&mut self, i: usize, rem: usize) {
+        if self.lite { self.fold_u(rem as u64); } else { self.events[i].1["rem"] = json!(rem); }
+    }
+    fn patch_owner(&mut self, i: usize, olen: usize, own: Vec<u8>) {
+        if self.lite {
+            self.fold_u(olen as u64);
+            self.fold_bytes(&own);
+        } else {
+            self.events[i].1["olen"] = json!(olen);
+            self.events[i].1["own"] = json!(own);
+        }
+    }
 }
 
 struct UnwindMarker;
@@ -238,41 +323,41 @@ macro_rules! read_chain {
 
 fn run_view<'d, 's>(mut b: BufferRef<'d, 's>, cx: &mut Cx, open_act: Value, depth: usize) -> Exit {
     cx.current = None;
-    cx.events.push((open_act, json!({"r":"ok","rem":b.remaining()})));
+    cx.push(open_act, Out::ok().rem(b.remaining()));
     loop {
         let op = match cx.src.next(Some((b.remaining(), depth)), 0) {
             Some(op) => op,
             None => return Exit::EndOfPlan,
         };
-        let act = act_of(&op);
+        let act = cx.act(&op);
         cx.current = Some(act.clone());
         match op {
             Op::Write { bs } => {
                 let r = b.write(&bs);
-                cx.events.push((act, json!({"r": if r.is_ok() {"ok"} else {"cap"}, "rem": b.remaining()})));
+                cx.push(act, Out { r: if r.is_ok() { "ok" } else { "cap" }, ..Default::default() }.rem(b.remaining()));
             }
             Op::Extend { bs } => {
                 let r = b.extend(bs.iter().cloned());
-                cx.events.push((act, json!({"r": if r.is_ok() {"ok"} else {"cap"}, "rem": b.remaining()})));
+                cx.push(act, Out { r: if r.is_ok() { "ok" } else { "cap" }, ..Default::default() }.rem(b.remaining()));
             }
             Op::Advance { bs } => {
                 unsafe {
                     b.uninitialized_mut()[..bs.len()].copy_from_slice(&bs);
                     b.advance(bs.len());
                 }
-                cx.events.push((act, json!({"r":"ok","rem":b.remaining()})));
+                cx.push(act, Out::ok().rem(b.remaining()));
             }
             Op::Scribble { bs } => {
                 unsafe {
                     b.uninitialized_mut()[..bs.len()].copy_from_slice(&bs);
                 }
-                cx.events.push((act, json!({"r":"ok","rem":b.remaining()})));
+                cx.push(act, Out::ok().rem(b.remaining()));
             }
             Op::Open { ks } => {
                 let e = with_chain!(&mut b, &ks, |c| run_view(c, cx, act.clone(), depth + 1));
                 match e {
                     Exit::Closed(i) => {
-                        cx.events[i].1["rem"] = json!(b.remaining());
+                        cx.patch_rem(i, b.remaining());
                     }
                     Exit::EndOfPlan => return Exit::EndOfPlan,
                 }
@@ -283,21 +368,21 @@ fn run_view<'d, 's>(mut b: BufferRef<'d, 's>, cx: &mut Cx, open_act: Value, dept
                     Ok(s) => s.to_vec(),
                     Err(e) => panic!("harness: read_buffer io error {:?}", e),
                 };
-                cx.events.push((act, json!({"r":"ok","data":data,"rem":b.remaining()})));
+                cx.push(act, Out::ok().data(data).rem(b.remaining()));
             }
             Op::Close => {
-                cx.events.push((act, json!({"r":"ok","data":[]})));
+                cx.push(act, Out::ok().data(Vec::new()));
                 cx.current = None;
                 return Exit::Closed(cx.events.len() - 1);
             }
             Op::CloseInit => {
                 let s = b.initialized().to_vec();
-                cx.events.push((act, json!({"r":"ok","data":s})));
+                cx.push(act, Out::ok().data(s));
                 cx.current = None;
                 return Exit::Closed(cx.events.len() - 1);
             }
             Op::Unwind => {
-                cx.events.push((act, json!({"r":"ok"})));
+                cx.push(act, Out::ok());
                 cx.unwinding = Some(cx.events.len() - 1);
                 cx.current = None;
                 resume_unwind(Box::new(UnwindMarker));
@@ -491,7 +576,7 @@ fn top_loop(cx: &mut Cx, owner: &mut dyn Owner) -> bool {
             Some(op) => op,
             None => return true,
         };
-        let act = act_of(&op);
+        let act = cx.act(&op);
         match op {
             Op::Open { ks } => {
                 cx.current = Some(act.clone());
@@ -499,18 +584,16 @@ fn top_loop(cx: &mut Cx, owner: &mut dyn Owner) -> bool {
                 let r = catch_unwind(AssertUnwindSafe(|| owner.open(&ks, cx, act.clone())));
                 match r {
                     Ok(Exit::Closed(i)) => {
-                        cx.events[i].1["olen"] = json!(owner.olen());
-                        cx.events[i].1["own"] = json!(owner.own());
+                        cx.patch_owner(i, owner.olen(), owner.own());
                     }
                     Ok(Exit::EndOfPlan) => return true,
                     Err(p) => {
                         if p.downcast_ref::<UnwindMarker>().is_some() {
                             let i = cx.unwinding.take().expect("harness: unwind without event");
-                            cx.events[i].1["olen"] = json!(owner.olen());
-                            cx.events[i].1["own"] = json!(owner.own());
+                            cx.patch_owner(i, owner.olen(), owner.own());
                         } else {
                             let a = cx.current.take().unwrap_or(act);
-                            cx.events.push((a, json!({"r":"panic","msg":panic_text(&p),"loc":last_panic_location()})));
+                            cx.push(a, Out { r: "panic", msg: Some(panic_text(&p)), loc: Some(last_panic_location()), ..Default::default() });
                             return false;
                         }
                     }
@@ -520,15 +603,18 @@ fn top_loop(cx: &mut Cx, owner: &mut dyn Owner) -> bool {
                 cx.current = Some(act.clone());
                 let r = catch_unwind(AssertUnwindSafe(|| owner.read(&bs, &ks)));
                 match r {
-                    Ok(data) => cx.events.push((act, json!({"r":"ok","data":data,"olen":owner.olen(),"own":owner.own()}))),
+                    Ok(data) => {
+                        let o = Out { r: "ok", data: Some(data), olen: Some(owner.olen()), own: Some(owner.own()), ..Default::default() };
+                        cx.push(act, o);
+                    }
                     Err(p) => {
-                        cx.events.push((act, json!({"r":"panic","msg":panic_text(&p),"loc":last_panic_location()})));
+                        cx.push(act, Out { r: "panic", msg: Some(panic_text(&p)), loc: Some(last_panic_location()), ..Default::default() });
                         return false;
                     }
                 }
             }
             Op::Final => {
-                cx.events.push((act, json!({"r":"ok","mem":owner.mem()})));
+                cx.push(act, Out { r: "ok", mem: Some(owner.mem()), ..Default::default() });
                 return true;
             }
             other => panic!("harness: {:?} at top level", other),
@@ -557,13 +643,13 @@ fn exec_run(cx: &mut Cx) -> bool {
         Some(op) => op,
         None => return false,
     };
-    let act = act_of(&op);
+    let act = cx.act(&op);
     let (kind, cap, len0, mem0) = match op {
         Op::Setup { kind, cap, len0, mem0 } => (kind, cap, len0, mem0),
         other => panic!("harness: run must start with setup, got {:?}", other),
     };
     assert!(mem0.len() == cap && len0 <= cap, "harness: bad setup");
-    cx.events.push((act, json!({"r":"ok"})));
+    cx.push(act, Out::ok());
     match kind.as_str() {
         "vec" => {
             let mut v = mem0.clone();
@@ -587,7 +673,7 @@ fn exec_run(cx: &mut Cx) -> bool {
 }
 
 fn exec_plan(plan: Vec<Op>) -> Vec<(Value, Value)> {
-    let mut cx = Cx { src: Source::Plan(plan, 0), events: Vec::new(), current: None, unwinding: None };
+    let mut cx = Cx::new(Source::Plan(plan, 0), false);
     exec_run(&mut cx);
     cx.events
 }
@@ -1125,13 +1211,72 @@ fn cmd_drive(args: &[String]) {
     let ops: usize = args[3].parse().unwrap();
     for r in 0..runs {
         let rng = StdRng::seed_from_u64(seed.wrapping_mul(1_000_003).wrapping_add(r as u64));
-        let mut cx = Cx {
-            src: Source::Random { rng, cfg: RandCfg { maxcap, ops, maxdepth: 3 }, left: ops, started: false },
-            events: Vec::new(), current: None, unwinding: None,
-        };
+        let mut cx = Cx::new(Source::Random { rng, cfg: RandCfg { maxcap, ops, maxdepth: 3 }, left: ops, started: false }, false);
         exec_run(&mut cx);
         print_events(&cx.events);
     }
+}
+
+/// Compact plans for the Miri run (no JSON inside the interpreter): one plan per line, operations
+/// separated by ';', numbers by blanks:
+///   S <kind> <cap> <len0> <mem0...> ; O <ks...> ; W <bs...> ; E <bs...> ; A <bs...> ; X <bs...> ;
+///   R <n> <bs (n bytes)...> <ks...> ; C ; I ; U ; F
+fn parse_compact(line: &str) -> Vec<Op> {
+    let mut ops = Vec::new();
+    for part in line.split(';') {
+        let mut it = part.split_whitespace();
+        let code = match it.next() {
+            Some(c) => c,
+            None => continue,
+        };
+        let nums: Vec<usize> = if code == "S" {
+            Vec::new()
+        } else {
+            it.clone().map(|x| x.parse().expect("number")).collect()
+        };
+        let bytes = |v: &[usize]| -> Vec<u8> { v.iter().map(|x| *x as u8).collect() };
+        ops.push(match code {
+            "S" => {
+                let kind = it.next().expect("kind").to_string();
+                let v: Vec<usize> = it.map(|x| x.parse().expect("number")).collect();
+                Op::Setup { kind, cap: v[0], len0: v[1], mem0: bytes(&v[2..]) }
+            }
+            "O" => Op::Open { ks: nums },
+            "W" => Op::Write { bs: bytes(&nums) },
+            "E" => Op::Extend { bs: bytes(&nums) },
+            "A" => Op::Advance { bs: bytes(&nums) },
+            "X" => Op::Scribble { bs: bytes(&nums) },
+            "R" => {
+                let n = nums[0];
+                Op::Read { bs: bytes(&nums[1..1 + n]), ks: nums[1 + n..].to_vec() }
+            }
+            "C" => Op::Close,
+            "I" => Op::CloseInit,
+            "U" => Op::Unwind,
+            "F" => Op::Final,
+            other => panic!("harness: unknown compact op {}", other),
+        });
+    }
+    ops
+}
+
+/// `run-lite`: executes compact plans from stdin without building JSON; prints the number of plans,
+/// the number of library panics and a checksum of everything observed.
+fn cmd_run_lite() {
+    let stdin = std::io::stdin();
+    let mut plans = 0u64;
+    let mut sum = 0u64;
+    let mut events = 0u64;
+    for line in stdin.lock().lines() {
+        let line = match line { Ok(l) => l, Err(_) => break };
+        if line.trim().is_empty() { continue; }
+        let mut cx = Cx::new(Source::Plan(parse_compact(&line), 0), true);
+        exec_run(&mut cx);
+        plans += 1;
+        events += cx.events.len() as u64;
+        sum = sum.rotate_left(7) ^ cx.sum;
+    }
+    println!("LITE plans={} events={} sum={:016x}", plans, events, sum);
 }
 
 fn main() {
@@ -1140,6 +1285,7 @@ fn main() {
     match args.get(1).map(|s| s.as_str()) {
         Some("graph") => cmd_graph(&args[2..]),
         Some("run") => cmd_run(),
+        Some("run-lite") => cmd_run_lite(),
         Some("drive") => cmd_drive(&args[2..]),
         _ => {
             eprintln!("usage: vh-buffer graph|run|drive ...");
